@@ -92,6 +92,26 @@ EXTRA.update({
  "C04": " Also: a destination that can mount, a racing second writer (push meets ErrAlreadyExists after Exists said false).",
  "C06": " Also: GC racing a push that is then tagged.",
 })
+EXTRA["C06"] = " Also: two references sharing one annotated descriptor, a failing push under the second name of stored content (file store), GC racing a push that is then tagged, a name held by other content."
+for _k, _v in {
+ "C01": " A second writer racing the copy.",
+ "C02": " An upload that hangs until its context is cancelled (counts as a fault) on the smallest graph with a shared leaf.",
+ "C03": " The copy reads through a Repository value that has not yet learnt the registry's capabilities.",
+ "C05": " Malformed digests whose encoded part is a relative path of the hex length.",
+ "C07": " Predecessors is asked after every push of an order.",
+ "C08": " A tag made with a descriptor that carries a foreign reference-name annotation.",
+ "C09": " A lone image and a store of blobs only.",
+ "C10": " Histories of length <= 2 on a layout whose index.json is a symbolic link.",
+ "C11": " Read-only directory entries; one store carrying a failed named push, the archive and the repeated push.",
+ "C12": " Other spellings of the added path (doubled separator, dot segment, '<dir>/..', through a symbolic link).",
+ "C13": " An answer with Content-Length 0.",
+ "C14": " Also: a referrer larger than MaxMetadataBytes next to one that fits.",
+ "C15": " Further legal spellings of rel=next; an oversize referrers index with declared length, with and without digest header.",
+ "C16": " Registry B as a sub-domain of A, credentials through StaticCredential, a re-targeted clone of the caller's last request.",
+ "C17": " A blob pushed from a file-like ReadSeeker positioned behind a header.",
+ "C18": " After concurrent calls the live store must read back what the file holds; after every crash point a restart that saves a shorter document.",
+}.items():
+    EXTRA[_k] = EXTRA.get(_k, "") + _v
 for _k, _v in EXTRA.items():
     CHECKS[_k]["note"] += _v
 
